@@ -19,7 +19,7 @@ VARIABLES l, g, p
 vars == <<l, g, p>>
 
 G0 == [ cfg |-> [e |-> "none", max_samples |-> 0, max_flows |-> 0], fs0 |-> HS!Flow0, reg |-> <<>>, fsf |-> <<>>,
-        roundFlow |-> 0, lastRound |-> [largest |-> 0, probes |-> <<>>], lastFlow |-> <<>>, pubs |-> 0, attributed |-> 0 ]
+        prevFlows |-> <<>>, fsi |-> <<>>, roundFlow |-> 0, lastRound |-> [largest |-> 0, probes |-> <<>>], lastFlow |-> <<>>, pubs |-> 0, attributed |-> 0 ]
 
 \* the JSON probe record as a HopStats probe record
 Pr(x) == IF x.st = "C" THEN [st |-> "C", ttl |-> x.ttl, rtt |-> x.rtt, host |-> x.host, seq |-> x.seq, sport |-> x.sport,
@@ -28,6 +28,10 @@ Pr(x) == IF x.st = "C" THEN [st |-> "C", ttl |-> x.ttl, rtt |-> x.rtt, host |-> 
                              dport |-> x.dport, kind |-> "none", tos |-> -1, eck |-> -1, ack |-> -1, round |-> x.round]
          ELSE [st |-> x.st]
 RoundOf(e) == [largest |-> e.largest, probes |-> [i \in 1..Len(e.probes) |-> Pr(e.probes[i])]]
+
+\* the flow(s) whose round count went up by one in this snapshot: the implementation's own attribution
+PrevRc(prev, i) == IF i <= Len(prev) THEN prev[i].rc ELSE 0
+IncSet(e, prev) == {i \in 1..Len(e.flows) : e.flows[i].rc = PrevRc(prev, i) + 1}
 
 FsOf(gg, id) == IF id \in DOMAIN gg.fsf THEN gg.fsf[id] ELSE HS!Flow0
 
@@ -46,6 +50,12 @@ Step(gg, e) ==
                                    THEN [x \in (DOMAIN @) \cup {id} |-> IF x = id THEN HS!Apply(FsOf(gg, id), r, ms) ELSE @[x]]
                                    ELSE @,
                            !.lastRound = r, !.lastFlow = FL!FlowOfRound(r), !.pubs = @ + 1]
+      [] e.e = "snap" /\ "flows" \in DOMAIN e ->
+            LET inc == IncSet(e, gg.prevFlows) IN
+            [gg EXCEPT !.prevFlows = e.flows,
+                       !.fsi = [x \in (DOMAIN @) \cup inc |->
+                                  IF x \in inc THEN HS!Apply(IF x \in DOMAIN @ THEN @[x] ELSE HS!Flow0, gg.lastRound, gg.cfg.max_samples)
+                                  ELSE @[x]]]
       [] OTHER -> gg
 
 Init == l = 1 /\ g = G0 /\ p = G0
@@ -115,25 +125,35 @@ C10_Window == Full =>
 (***************************************************************************)
 (* C15                                                                      *)
 (***************************************************************************)
+\* (drift only, see MonState_C15conf.cfg) the registry equals the transcribed first-match registry
 C15_Registry == Full =>
     /\ E.nflows = Len(p.reg)
     /\ Len(E.flows) = Len(p.reg)
     /\ \A i \in 1..Len(p.reg) : E.flows[i].id = i /\ E.flows[i].entries = p.reg[i]
-C15_Bound    == Full => E.nflows <= p.cfg.max_flows
-C15_Dense    == Full => \A i \in 1..Len(E.flows) : E.flows[i].id = i
+    /\ (p.attributed > 0 => E.round_flow = p.attributed)
+\* --- verdict clauses: stated over the implementation's own registry as seen in consecutive snapshots ---
+Inc == IncSet(E, p.prevFlows)
+C15_Bound    == Full => E.nflows <= p.cfg.max_flows /\ E.nflows = Len(E.flows)
+\* identifiers are issued densely from 1, at most one per round, and none disappears
+C15_Dense    == Full => /\ \A i \in 1..Len(E.flows) : E.flows[i].id = i
+                        /\ Len(E.flows) >= Len(p.prevFlows) /\ Len(E.flows) <= Len(p.prevFlows) + 1
+\* a round is attributed to at most one flow; no other flow's count moves
+C15_OneFlow  == Full => /\ Cardinality(Inc) <= 1
+                        /\ \A i \in 1..Len(E.flows) : i \notin Inc => E.flows[i].rc = PrevRc(p.prevFlows, i)
 \* the round is attributed to a flow that agrees with every address seen in it
-C15_Agree    == Full /\ p.attributed > 0 =>
-    /\ E.round_flow = p.attributed
-    /\ p.attributed <= Len(E.flows)
-    /\ FL!Agrees(E.flows[p.attributed].entries, p.lastFlow)
-\* once issued, an identifier only ever extends
-C15_Monotone == [][ (l' > 2 /\ Rec[l' - 1].e = "snap" /\ Rec[l' - 1].e = "snap" /\ g'.cfg = g.cfg) =>
-                      \A i \in 1..Len(g.reg) : i <= Len(g'.reg) /\ FL!Extends(g.reg[i], g'.reg[i]) ]_vars
-\* when the registry is full, a round matching an existing flow is still attributed to it
-C15_FullStillAttributed == Full /\ p.attributed = 0 => Len(p.reg) >= p.cfg.max_flows /\ FL!FirstMatch(p.reg, p.lastFlow) = 0
-\* per-flow round counts and statistics are those of exactly the attributed rounds; flow 0 is all rounds
+C15_Agree    == Full /\ Inc # {} =>
+    LET i == CHOOSE x \in Inc : TRUE IN
+    /\ E.round_flow = i
+    /\ FL!Agrees(E.flows[i].entries, p.lastFlow)
+\* once issued, an identifier only ever extends what was recorded under it
+C15_Extends  == Full => \A i \in 1..Len(p.prevFlows) : i <= Len(E.flows) /\ FL!Extends(p.prevFlows[i].entries, E.flows[i].entries)
+\* a round is left unattributed only when the registry is full and no recorded flow matches it
+C15_FullStillAttributed == Full /\ Inc = {} =>
+    /\ Len(p.prevFlows) >= p.cfg.max_flows
+    /\ \A i \in 1..Len(p.prevFlows) : FL!Check(p.prevFlows[i].entries, p.lastFlow) = "nomatch"
+\* per-flow round counts and statistics are those of exactly the rounds attributed to the flow
 C15_PerFlow == Full => \A i \in 1..Len(E.flows) :
-    LET f == E.flows[i] m == FsOf(p, i) hr == HS!HopRange(m) IN
+    LET f == E.flows[i] m == (IF i \in DOMAIN g.fsi THEN g.fsi[i] ELSE HS!Flow0) hr == HS!HopRange(m) IN
     /\ f.rc = m.rc
     /\ Len(f.hops) = Len(hr)
     /\ \A j \in 1..Len(hr) : f.hops[j].ttl = hr[j].ttl /\ f.hops[j].sent = hr[j].sent /\ f.hops[j].recv = hr[j].recv
